@@ -66,6 +66,39 @@ theorem nodup_proj (P : Sym) : ∀ l : List (Sym × List Nat), l.Nodup →
     · simp only [List.filter_cons, ha, decide_false, Bool.false_eq_true, if_false]
       exact ih
 
+/-- the decidable check: every pending combination is a root -/
+theorem zero_of_check (s : St S) (h : frontCheck s = true) : ∀ nt P t, t ∈ pend s nt P → CD.nonzero t = false := by
+  intro nt P t ht
+  by_cases hk : nt ∈ AList.keys s.queued ++ AList.keys s.delayed
+  · unfold frontCheck at h
+    have h1 := List.all_eq_true.mp h nt hk
+    simp only [Bool.and_eq_true, decide_eq_true_eq] at h1
+    obtain ⟨_, hz⟩ := h1
+    rw [pend_eq_pairs] at ht
+    simp only [List.mem_map, List.mem_filter] at ht
+    obtain ⟨x, ⟨hx, _⟩, rfl⟩ := ht
+    have := List.all_eq_true.mp hz x hx
+    unfold CD.nonzero
+    rw [Bool.eq_false_iff]
+    intro hany
+    rw [List.any_eq_true] at hany
+    obtain ⟨y, hy, hy0⟩ := hany
+    have := List.all_eq_true.mp this y hy
+    simp at this hy0
+    exact hy0 this
+  · exfalso
+    have e1 : allOf nt s.queued = [] := by
+      apply List.eq_nil_iff_forall_not_mem.mpr
+      intro x hx
+      obtain ⟨l, hl, _⟩ := mem_allOf.mp hx
+      exact hk (List.mem_append_left _ (List.mem_map.mpr ⟨(nt, l), hl, rfl⟩))
+    have e2 : allOf nt s.delayed = [] := by
+      apply List.eq_nil_iff_forall_not_mem.mpr
+      intro x hx
+      obtain ⟨l, hl, _⟩ := mem_allOf.mp hx
+      exact hk (List.mem_append_right _ (List.mem_map.mpr ⟨(nt, l), hl, rfl⟩))
+    unfold pend at ht; rw [e1, e2] at ht; simp [qcmb, dcmb] at ht
+
 /-- the decidable check gives the frontier property of every rule -/
 theorem front_of_check (s : St S) (h : frontCheck s = true) : ∀ nt P, Frontier (pend s nt P) := by
   intro nt P
